@@ -288,6 +288,15 @@ def data_valued(t):
     return False
 
 
+def unstrict(t):
+    """identify `<=` with `<` on data-valued comparisons (see mirror)"""
+    if not isinstance(t, tuple):
+        return t
+    if t and t[0] == "<=" and len(t) == 3 and (data_valued(t[1]) or data_valued(t[2])):
+        return ("<", unstrict(t[1]), unstrict(t[2]))
+    return tuple(unstrict(x) for x in t)
+
+
 def mirror(t):
     """Maximum -> Minimum renaming on terms"""
     if isinstance(t, str):
@@ -296,7 +305,9 @@ def mirror(t):
         return t
     if t and t[0] == "c" and t[1] == "f64" and isinstance(t[2], float) and math.isinf(t[2]):
         return ("c", "f64", -t[2])
-    if t and t[0] == "<" and len(t) == 3 and (data_valued(t[1]) or data_valued(t[2])):
+    if t and t[0] in ("<", "<=") and len(t) == 3 and (data_valued(t[1]) or data_valued(t[2])):
+        # strictness of a comparison between data values only decides which of two equal slots is remembered,
+        # never the extreme value returned: `<` and `<=` are identified here
         return ("<", mirror(t[2]), mirror(t[1]))
     if t and t[0] == "get" and t[1] in ("high", "low"):
         return ("get", "low" if t[1] == "high" else "high", mirror(t[2]))
@@ -363,7 +374,7 @@ def apply(F, S):
             pol = symex.Policy(F, modular=True)
             rx, rn = symex.evaluate(F, fx, pol, canon=True), symex.evaluate(F, fn, pol, canon=True)
             mx = {"ret": mirror(rx["ret"]), **{mirror(k): mirror(v) for k, v in rx["heap"].items()}}
-            mn = {"ret": rn["ret"], **rn["heap"]}
+            mn = {"ret": unstrict(rn["ret"]), **{k: unstrict(v) for k, v in rn["heap"].items()}}
             diffs = [k for k in set(mx) | set(mn) if N.key(mx.get(k)) != N.key(mn.get(k))]
             if diffs:
                 k = sorted(diffs)[0]
